@@ -1,5 +1,6 @@
 (* C20/Properties.v — property theorems only. *)
-From Relic Require Import Base.Prelude Generated.C20_gen C20.Model C20.Proofs C20.Lock C20.LockProofs.
+From Relic Require Import Base.Prelude Generated.C20_gen C20.Model C20.Proofs C20.Lock C20.LockProofs C20.Scope C20.ScopeProofs.
+Require Import Coq.Sorting.Permutation.
 
 (* the endpoint reports failure exactly when disabled, stale for three intervals, or the last N checks all failed —
    for every threshold N >= 1, every history of rounds over any number of tokens, every query time *)
@@ -131,3 +132,115 @@ Example flagged_shapes :
   locked_access [1; 4; 2; 11; 8; 12; 6; 7; 10] = false /\
   analyze [1; 4; 11; 8; 12; 1; 6; 7; 2; 10] = None.
 Proof. vm_compute. repeat split. Qed.
+
+(* ================= timeout scope of the token pings (C20/Scope.v) ================= *)
+
+(* the generated decisions of pingOne / healthCheck: a token is recorded ok exactly when its Ping returned nil *)
+Theorem counted_ok_spec : forall err expired, tok_counted_ok err expired = negb err.
+Proof. exact C20.ScopeProofs.counted_ok_spec. Qed.
+(* the context that reaches Token.Ping is created once per token with token_check_timeout seconds, for every
+   configuration and every number of tokens (statement over the generated chain) *)
+Theorem source_scope_per_token : forall timeout_s interval_s n,
+  chain_timeout (cfg_chain timeout_s interval_s n) = Some (spec_timeout timeout_s).
+Proof. exact C20.ScopeProofs.source_scope_per_token. Qed.
+(* ANY chain whose contexts are all created per token: the round is decided token by token, ends after the sum of the
+   individual check times, and hangs iff some token neither answers nor can be interrupted *)
+Theorem round_per_token : forall chain T rs ps,
+  chain_timeout chain = Some T -> 0 <= T ->
+  run_round chain rs ps =
+  if forallb tok_returns ps then Some (map (spec_tok_ok T) ps, rs + spec_round_dur T ps) else None.
+Proof. exact C20.ScopeProofs.round_per_token. Qed.
+(* the current source: all configurations, all rounds over any number of tokens with any latencies *)
+Theorem source_round : forall timeout_s interval_s rs ps,
+  0 <= timeout_s ->
+  run_round (cfg_chain timeout_s interval_s (zlen ps)) rs ps =
+  if forallb tok_returns ps
+  then Some (map (spec_tok_ok (spec_timeout timeout_s)) ps, rs + spec_round_dur (spec_timeout timeout_s) ps) else None.
+Proof. exact C20.ScopeProofs.source_round. Qed.
+(* a round is ok iff every token answers ok within the timeout on its own *)
+Theorem round_ok_iff_each_in_time : forall timeout_s interval_s rs ps,
+  0 <= timeout_s -> forallb tok_returns ps = true ->
+  exists oks tend, run_round (cfg_chain timeout_s interval_s (zlen ps)) rs ps = Some (oks, tend) /\
+                   round_ok (mkR oks tend) = forallb (spec_tok_ok (spec_timeout timeout_s)) ps.
+Proof. exact C20.ScopeProofs.round_ok_iff_each_in_time. Qed.
+(* the order in which the tokens are pinged (map iteration order) changes neither the verdict, nor the end time, nor
+   whether the round ends *)
+Theorem round_order_independent : forall timeout_s interval_s rs ps ps',
+  0 <= timeout_s -> Permutation ps ps' ->
+  round_verdict (run_round (cfg_chain timeout_s interval_s (zlen ps)) rs ps) =
+  round_verdict (run_round (cfg_chain timeout_s interval_s (zlen ps')) rs ps').
+Proof. exact C20.ScopeProofs.round_order_independent. Qed.
+(* what is recorded for a token does not depend on the tokens pinged before or after it *)
+Theorem token_outcome_independent : forall timeout_s interval_s rs before p after oks tend,
+  0 <= timeout_s ->
+  run_round (cfg_chain timeout_s interval_s (zlen (before ++ p :: after))) rs (before ++ p :: after) = Some (oks, tend) ->
+  nth (length before) oks false = spec_tok_ok (spec_timeout timeout_s) p.
+Proof. exact C20.ScopeProofs.token_outcome_independent. Qed.
+(* hysteresis over timed histories: /health is what the property demands of the per-token outcomes *)
+Theorem timed_health_refines_spec : forall disabled interval failures timeout_s interval_s t0 rounds now,
+  1 <= failures -> 0 <= timeout_s ->
+  h_healthy disabled interval (h_run_timed (cfg_chain timeout_s interval_s) failures t0 rounds) now =
+  spec_healthy disabled interval failures t0 (spec_hist (spec_timeout timeout_s) rounds) now.
+Proof. exact C20.ScopeProofs.timed_health_refines_spec. Qed.
+(* tokens that each answer ok in time never trip the failure counter: any number of tokens, rounds, latencies *)
+Theorem in_time_never_trips : forall failures timeout_s interval_s t0 rounds,
+  1 <= failures -> 0 <= timeout_s -> all_in_time (spec_timeout timeout_s) rounds ->
+  h_status (h_run_timed (cfg_chain timeout_s interval_s) failures t0 rounds) = failures.
+Proof. exact C20.ScopeProofs.in_time_never_trips. Qed.
+Theorem in_time_healthy : forall disabled interval failures timeout_s interval_s t0 rounds now,
+  1 <= failures -> 0 <= timeout_s -> all_in_time (spec_timeout timeout_s) rounds ->
+  h_healthy disabled interval (h_run_timed (cfg_chain timeout_s interval_s) failures t0 rounds) now =
+  negb disabled && (now - last_completed t0 (spec_hist (spec_timeout timeout_s) rounds) <=? 3 * interval).
+Proof. exact C20.ScopeProofs.in_time_healthy. Qed.
+(* necessity: with a context created once per round, two tokens that each answer ok in time fail the round as soon as
+   their latencies add up to the timeout *)
+Theorem per_round_scope_cuts_healthy_tokens : forall T l1 l2 rs,
+  0 < l1 -> 0 < l2 -> l1 < T -> l2 < T -> T <= l1 + l2 ->
+  run_round [(2, T, true)] rs [mkTok (Some l1) true true; mkTok (Some l2) true true] = Some ([true; false], rs + T) /\
+  forallb (spec_tok_ok T) [mkTok (Some l1) true true; mkTok (Some l2) true true] = true.
+Proof. exact C20.ScopeProofs.per_round_scope_cuts_healthy_tokens. Qed.
+(* the concurrent model, its pings timed by the scope model: after any timed rounds the published history is the
+   specification's, and a query made any time later is answered with what the property demands *)
+Theorem timed_rounds_concurrent : forall C timeout_s interval_s t0 rounds,
+  1 <= c_failures C -> 0 <= timeout_s ->
+  (forall r, In r rounds -> c_tokens C = length (tr_toks r)) ->
+  let s := fst (run_sys hc_plan healthy_plan C (init C t0 t0) (rounds_sched (cfg_chain timeout_s interval_s) t0 rounds)) in
+  s_hist s = spec_hist (spec_timeout timeout_s) rounds /\
+  forall d, snd (run_sys hc_plan healthy_plan C s [ATick d; AQuery]) =
+            [OAns (spec_healthy (c_disabled C) (c_interval C) (c_failures C) t0
+                     (spec_hist (spec_timeout timeout_s) rounds) (s_now s + d)) (s_now s + d)].
+Proof. exact C20.ScopeProofs.timed_rounds_concurrent. Qed.
+
+(* non-vacuity.  token_check_timeout = 1 s; times in ns.  Two tokens that answer ok after 650 ms each: the round is ok
+   and takes 1.3 s; with a per-round context the second one is cut at 1 s.  One token above the timeout among fast ones,
+   in each position: the round fails after 1.1 s.  A token that ignores its context and answers ok after 1.3 s counts
+   as ok; one that never answers and honours the context costs exactly the timeout. *)
+Definition ms (x : Z) : Z := x * 1000000.
+Example two_slow_but_healthy_tokens :
+  let ps := [mkTok (Some (ms 650)) true true; mkTok (Some (ms 650)) true true] in
+  run_round (cfg_chain 1 60 2) 0 ps = Some ([true; true], ms 1300) /\
+  run_round [(2, spec_timeout 1, true)] 0 ps = Some ([true; false], ms 1000) /\
+  all_in_time (spec_timeout 1) [mkTR 0 ps; mkTR (ms 5000) ps; mkTR (ms 9000) ps] /\
+  h_healthy false (ms 3000) (h_run_timed (cfg_chain 1 60) 2 0 [mkTR 0 ps; mkTR (ms 5000) ps; mkTR (ms 9000) ps]) (ms 10400) = true /\
+  h_healthy false (ms 3000) (h_run_timed (fun _ => [(2, spec_timeout 1, true)]) 2 0 [mkTR 0 ps; mkTR (ms 5000) ps]) (ms 6100) = false.
+Proof.
+  cbv zeta. split; [vm_compute; reflexivity|]. split; [vm_compute; reflexivity|].
+  split; [intros r [<-|[<-|[<-|[]]]]; vm_compute; reflexivity|].
+  split; vm_compute; reflexivity.
+Qed.
+Example one_slow_among_fast :
+  let f := mkTok (Some (ms 50)) true true in
+  let sl := mkTok (Some (ms 1400)) true true in
+  run_round (cfg_chain 1 60 3) 0 [sl; f; f] = Some ([false; true; true], ms 1100) /\
+  run_round (cfg_chain 1 60 3) 0 [f; sl; f] = Some ([true; false; true], ms 1100) /\
+  run_round (cfg_chain 1 60 3) 0 [f; f; sl] = Some ([true; true; false], ms 1100) /\
+  run_round (cfg_chain 1 60 2) 0 [mkTok (Some (ms 1300)) true false; f] = Some ([true; true], ms 1350) /\
+  run_round (cfg_chain 1 60 2) 0 [mkTok None true true; f] = Some ([false; true], ms 1050) /\
+  run_round (cfg_chain 1 60 2) 0 [mkTok None true false; f] = None.
+Proof. vm_compute. repeat split; reflexivity. Qed.
+Example timed_round_in_concurrent_model :
+  let ps := [mkTok (Some (ms 650)) true true; mkTok (Some (ms 650)) true true] in
+  let C := mkCfg 2 false (ms 3000) 2 in
+  snd (run_sys hc_plan healthy_plan C (init C 0 0) (rounds_sched (cfg_chain 1 60) 0 [mkTR 0 ps; mkTR (ms 4300) ps] ++ [AQuery]))
+  = [OAns true (ms 5600)].
+Proof. vm_compute. reflexivity. Qed.
